@@ -394,13 +394,10 @@ func neutralise(path string, a, b *descriptorpb.FileDescriptorProto) (fails []vf
 	return fails
 }
 
-func normComment(s string) string {
-	lines := strings.Split(strings.TrimSpace(s), "\n")
-	for i := range lines {
-		lines[i] = strings.TrimSpace(lines[i])
-	}
-	return strings.Join(lines, "\n")
-}
+// normComment: leading comments are compared verbatim. The printer writes "//"
+// followed by the stored line, so the text - leading space, trailing blanks and
+// the " " the compiler stores for a blank paragraph line included - survives.
+func normComment(s string) string { return s }
 
 // comments collects leading comments of every named descriptor.
 func comments(fd protoreflect.FileDescriptor) map[string]string {
